@@ -47,7 +47,7 @@ func propOfScenario(sc string) string {
 }
 
 var props = map[string]propSpec{
-	"C03": {scenarios: []string{"C03", "C03", "C08", "C12"}, level: "exploration", quickRuns: 2500, thoroughRuns: 60000, runLimit: 30 * time.Second,
+	"C03": {scenarios: []string{"C03", "C03", "C08", "C12", "C11"}, level: "exploration", quickRuns: 2500, thoroughRuns: 60000, runLimit: 30 * time.Second,
 		requiredProbes: []string{"kind:mut", "kind:del", "kind:exp", "filter:reserved-prefix", "filter:skipuntil", "partial-prefix-delivered", "ack-in-a-later-step-than-delivery"}},
 	"C04": {scenarios: []string{"C04", "C04", "C04r", "C12"}, level: "exploration", quickRuns: 2500, thoroughRuns: 60000, runLimit: 30 * time.Second,
 		requiredProbes: []string{"stale-ack", "repeated-ack", "ack-burst", "absorbed-event-tracked", "offsets-api-compared", "seq-gauge-compared"}},
